@@ -1,32 +1,68 @@
 ------------------------------ MODULE MCPicGeom ------------------------------
-(* Model-checking wrapper for PicGeom.tla: representative geometries as
-   constant records, the request sets explored for each of them, and the
-   geometry sets selected by the MCPicGeom*.cfg files (cfg files cannot
-   contain records). *)
+(* Model-checking wrapper for PicGeom.tla (pictures): the table of ALL the
+   standard formats of include/upipe/uref_pic_flow_formats.h as geometry
+   records (the check compares this table, printed as FMT, with what the
+   header compiled into the harness says), the request sets explored for
+   each geometry, and the geometry sets selected by the MCPicGeom*.cfg files
+   (cfg files cannot contain records).  Sound: MCSoundGeom.tla. *)
 EXTENDS PicGeom
 
 Pl(h, v, m) == [hsub |-> h, vsub |-> v, mps |-> m]
 Pic(n, mp, pls) == [name |-> n, kind |-> "pic", mp |-> mp, planes |-> pls]
 
-B_420p8   == Pic("yuv420p", 1, <<Pl(1, 1, 1), Pl(2, 2, 1), Pl(2, 2, 1)>>)      \* planar 4:2:0 8 bit
-B_422p10  == Pic("yuv422p10le", 1, <<Pl(1, 1, 2), Pl(2, 1, 2), Pl(2, 1, 2)>>)  \* planar 4:2:2, 10 bit in 16
-B_444p8   == Pic("yuv444p", 1, <<Pl(1, 1, 1), Pl(1, 1, 1), Pl(1, 1, 1)>>)      \* planar 4:4:4
-B_nv12    == Pic("nv12", 1, <<Pl(1, 1, 1), Pl(2, 2, 2)>>)                      \* semi-planar
-B_yuyv    == Pic("yuyv422", 2, <<Pl(1, 1, 4)>>)                                \* packed, macropixel 2
-B_v210    == Pic("v210like", 6, <<Pl(1, 1, 16)>>)                              \* packed, macropixel 6
-B_rgb24   == Pic("rgb24", 1, <<Pl(1, 1, 3)>>)                                  \* packed rgb
-B_yuva420 == Pic("yuva420p", 1, <<Pl(1, 1, 1), Pl(2, 2, 1), Pl(2, 2, 1), Pl(1, 1, 1)>>)
-Snd(n, ss, np) == [name |-> n, kind |-> "sound", mp |-> 1, planes |-> [p \in 1..np |-> Pl(1, 1, ss)]]
-B_s16x2 == Snd("s16_planar2", 2, 2)
-B_f32x1 == Snd("f32_packed_stereo", 8, 1)
-B_u8x3  == Snd("u8_planar3", 1, 3)
+P420(m) == <<Pl(1, 1, m), Pl(2, 2, m), Pl(2, 2, m)>>
+P422(m) == <<Pl(1, 1, m), Pl(2, 1, m), Pl(2, 1, m)>>
+P444(m) == <<Pl(1, 1, m), Pl(1, 1, m), Pl(1, 1, m)>>
+WithA(pls, m) == Append(pls, Pl(1, 1, m))
+One(m) == <<Pl(1, 1, m)>>
+
+\* include/upipe/uref_pic_flow_formats.h, in the order of UREF_PIC_FLOW_FORMAT_FOREACH
+Formats == <<
+  Pic("yuva420p", 1, WithA(P420(1), 1)), Pic("yuva422p", 1, WithA(P422(1), 1)), Pic("yuva444p", 1, WithA(P444(1), 1)),
+  Pic("yuv420p", 1, P420(1)), Pic("yuv422p", 1, P422(1)), Pic("yuv444p", 1, P444(1)),
+  Pic("yuva420p10le", 1, WithA(P420(2), 2)), Pic("yuva422p10le", 1, WithA(P422(2), 2)), Pic("yuva444p10le", 1, WithA(P444(2), 2)),
+  Pic("yuv420p10le", 1, P420(2)), Pic("yuv422p10le", 1, P422(2)), Pic("yuv444p10le", 1, P444(2)),
+  Pic("yuv420p10be", 1, P420(2)), Pic("yuv422p10be", 1, P422(2)), Pic("yuv444p10be", 1, P444(2)),
+  Pic("yuv420p12le", 1, P420(2)), Pic("yuv422p12le", 1, P422(2)), Pic("yuv444p12le", 1, P444(2)),
+  Pic("yuv420p12be", 1, P420(2)), Pic("yuv422p12be", 1, P422(2)), Pic("yuv444p12be", 1, P444(2)),
+  Pic("yuv420p16le", 1, P420(2)), Pic("yuv422p16le", 1, P422(2)), Pic("yuv444p16le", 1, P444(2)),
+  Pic("yuv420p16be", 1, P420(2)), Pic("yuv422p16be", 1, P422(2)), Pic("yuv444p16be", 1, P444(2)),
+  Pic("yuyv422", 2, One(4)), Pic("uyvy422", 2, One(4)),
+  Pic("gray8", 1, One(1)), Pic("monoblack", 1, One(1)), Pic("monowhite", 1, One(1)),
+  Pic("rgb0", 1, One(1)), Pic("0rgb", 1, One(1)), Pic("rgb565", 1, One(2)),
+  Pic("rgb24", 1, One(3)), Pic("bgr24", 1, One(3)),
+  Pic("argb", 1, One(4)), Pic("rgba", 1, One(4)), Pic("abgr", 1, One(4)), Pic("bgra", 1, One(4)),
+  Pic("rgba64le", 1, One(8)), Pic("rgba64be", 1, One(8)),
+  Pic("nv12", 1, <<Pl(1, 1, 1), Pl(2, 2, 2)>>), Pic("nv16", 1, <<Pl(1, 1, 1), Pl(2, 1, 2)>>),
+  Pic("nv24", 1, <<Pl(1, 1, 1), Pl(1, 1, 2)>>),
+  Pic("gbrp", 1, P444(1)),
+  Pic("p010le", 1, <<Pl(1, 1, 2), Pl(2, 2, 4)>>) >>
+
+\* the table as the check compares it with the header
+FmtOut == [i \in 1..Len(Formats) |-> [name |-> Formats[i].name, mp |-> Formats[i].mp,
+             planes |-> [p \in 1..Len(Formats[i].planes) |->
+                           <<Formats[i].planes[p].hsub, Formats[i].planes[p].vsub, Formats[i].planes[p].mps>>]]]
+ASSUME PrintT(<<"FMT", ToJson(FmtOut)>>)
+
+\* formats with the same macropixel and planes have the same geometry: one
+\* representative (the first of the table) per class
+SameClass(a, b) == a.mp = b.mp /\ a.planes = b.planes
+Reps == {i \in 1..Len(Formats) : \A j \in 1..(i - 1) : ~SameClass(Formats[i], Formats[j])}
+ByName(n) == Formats[CHOOSE i \in 1..Len(Formats) : Formats[i].name = n]
+\* a macropixel of 6 pixels in 16 octets (v210, not in the header), 4:1:1 / 4:1:0
+B_v210 == Pic("v210like", 6, One(16))
+B_411  == Pic("yuv411like", 1, <<Pl(1, 1, 1), Pl(4, 1, 1), Pl(4, 1, 1)>>)
+B_410  == Pic("yuv410like", 1, <<Pl(1, 1, 1), Pl(4, 4, 1), Pl(4, 4, 1)>>)
+AllBases == {Formats[i] : i \in Reps} \cup {B_v210, B_411, B_410}
+ASSUME PrintT(<<"CLASSES", Cardinality(AllBases)>>)
 
 SetMax(S) == CHOOSE x \in S : \A y \in S : y <= x
 HG(b) == SetMax({b.mp * b.planes[p].hsub : p \in 1..Len(b.planes)})
 VG(b) == SetMax({b.planes[p].vsub : p \in 1..Len(b.planes)})
 
 \* request sets for a picture geometry b allocated with widths AW*HG, heights AH*VG
-PicReq(b, AW, AH, kinds, fills, small) ==
+\* lvl: "full" every window, "mid" a cross-section, "small" a handful
+PicReq(b, AW, AH, kinds, fills, lvl) ==
   LET u == b.mp
       hg == HG(b)
       vg == VG(b)
@@ -43,30 +79,41 @@ PicReq(b, AW, AH, kinds, fills, small) ==
       VK == {-2 * vg, -vg, -1, 0, 1, vg, 2 * vg}
       RH == {-1} \cup {k * u : k \in 1..((Wm + 2 * hg) \div u)}
       RV == {-1} \cup (1..(Hm + 2 * vg))
+      \* "mid": offsets at / around / beyond both ends, sizes at / around the granularity
+      HOm == {0, u, hg, -u, -hg, Wm, -Wm, -(Wm + hg), -2 * Wm - hg, Wm + hg}
+      HSm == {-1, hg, Wm + hg} \cup (IF u < hg THEN {u} ELSE {})
+      VOm == {0, 1, vg, -1, -vg, Hm, -Hm, -(Hm + vg), -2 * Hm - vg, Hm + vg}
+      VSm == {-1, vg, Hm + vg} \cup (IF 1 < vg THEN {1} ELSE {})
+      smallR == {[hskip |-> hk, vskip |-> vk, hsize |-> -1, vsize |-> -1] : hk \in {-hg, 0, hg}, vk \in {-vg, 0, vg}}
+                  \cup {[hskip |-> 0, vskip |-> 0, hsize |-> hg, vsize |-> vg]}
   IN [allocs |-> ({<<a * hg, c * vg>> : a \in AW, c \in AH}
-                  \cup (IF small THEN {} ELSE {<<hg + u, vg>>, <<hg, vg + 1>>, <<0, vg>>, <<hg, 0>>})),
-      maps |-> IF small
-               THEN {Full, [ho |-> hg, vo |-> 0, hs |-> -1, vs |-> -1], [ho |-> 0, vo |-> vg, hs |-> hg, vs |-> vg]}
-               ELSE ({[ho |-> ho, vo |-> 0, hs |-> hs, vs |-> -1] : ho \in HO, hs \in HS}
-                     \cup {[ho |-> 0, vo |-> vo, hs |-> -1, vs |-> vs] : vo \in VO, vs \in VS}
-                     \cup {[ho |-> ho, vo |-> vo, hs |-> hs, vs |-> vs] :
-                             ho \in HOd, vo \in VOd, hs \in {-1, hg}, vs \in {-1, vg}}),
-      resizes |-> IF small
-                  THEN {[hskip |-> hk, vskip |-> vk, hsize |-> -1, vsize |-> -1] : hk \in {-hg, 0, hg}, vk \in {-vg, 0, vg}}
-                       \cup {[hskip |-> 0, vskip |-> 0, hsize |-> hg, vsize |-> vg]}
-                  ELSE ({[hskip |-> hk, vskip |-> 0, hsize |-> hs, vsize |-> -1] : hk \in HK, hs \in RH}
-                        \cup {[hskip |-> 0, vskip |-> vk, hsize |-> -1, vsize |-> vs] : vk \in VK, vs \in RV}
-                        \cup {[hskip |-> hk, vskip |-> vk, hsize |-> hs, vsize |-> vs] :
-                                hk \in {-hg, hg, u}, vk \in {-vg, vg, 1}, hs \in {-1, hg}, vs \in {-1, vg}}),
-      kinds |-> kinds, fills |-> fills]
-
-SndReq(AN, kinds, fills, small) ==
-  LET Nm == SetMax(AN)
-  IN [allocs |-> {<<n, 1>> : n \in AN} \cup (IF small THEN {} ELSE {<<-1, 1>>}),
-      maps |-> IF small THEN {Full, [ho |-> 1, vo |-> 0, hs |-> 1, vs |-> -1]}
-               ELSE {[ho |-> o, vo |-> 0, hs |-> s, vs |-> -1] : o \in (-(Nm + 2))..(Nm + 2), s \in {-1} \cup (1..(Nm + 2))},
-      resizes |-> IF small THEN {[off |-> 1, size |-> -1], [off |-> 0, size |-> 1], [off |-> -1, size |-> 1]}
-                  ELSE {[off |-> o, size |-> s] : o \in (-(Nm + 1))..(Nm + 1), s \in {-1} \cup (1..(Nm + 1))},
+                  \cup (IF lvl \in {"small", "tiny"} THEN {} ELSE {<<hg + u, vg>>, <<hg, vg + 1>>, <<0, vg>>, <<hg, 0>>})),
+      maps |-> CASE lvl = "tiny" -> {Full, [ho |-> hg, vo |-> vg, hs |-> hg, vs |-> vg]}
+                 [] lvl = "small" ->
+                      {Full, [ho |-> hg, vo |-> 0, hs |-> -1, vs |-> -1], [ho |-> 0, vo |-> vg, hs |-> hg, vs |-> vg]}
+                 [] lvl = "mid" ->
+                      ({[ho |-> ho, vo |-> 0, hs |-> hs, vs |-> -1] : ho \in HOm, hs \in HSm}
+                       \cup {[ho |-> 0, vo |-> vo, hs |-> -1, vs |-> vs] : vo \in VOm, vs \in VSm}
+                       \cup {[ho |-> hg, vo |-> vg, hs |-> hg, vs |-> vg], [ho |-> -hg, vo |-> -vg, hs |-> -1, vs |-> -1]})
+                 [] OTHER ->
+                      ({[ho |-> ho, vo |-> 0, hs |-> hs, vs |-> -1] : ho \in HO \cup {-2 * Wm - hg}, hs \in HS}
+                       \cup {[ho |-> 0, vo |-> vo, hs |-> -1, vs |-> vs] : vo \in VO \cup {-2 * Hm - vg}, vs \in VS}
+                       \cup {[ho |-> ho, vo |-> vo, hs |-> hs, vs |-> vs] :
+                               ho \in HOd, vo \in VOd, hs \in {-1, hg}, vs \in {-1, vg}}),
+      resizes |-> CASE lvl = "tiny" -> {[hskip |-> hg, vskip |-> vg, hsize |-> -1, vsize |-> -1],
+                                        [hskip |-> -hg, vskip |-> -vg, hsize |-> -1, vsize |-> -1],
+                                        [hskip |-> 0, vskip |-> 0, hsize |-> hg, vsize |-> vg]}
+                    [] lvl = "small" -> smallR
+                    [] lvl = "mid" ->
+                         smallR \cup {[hskip |-> hk, vskip |-> vk, hsize |-> hs, vsize |-> vs] :
+                                        hk \in {-hg, u}, vk \in {-vg, 1}, hs \in {hg, Wm + hg}, vs \in {vg, Hm + vg}}
+                    [] OTHER ->
+                         ({[hskip |-> hk, vskip |-> 0, hsize |-> hs, vsize |-> -1] : hk \in HK, hs \in RH}
+                          \cup {[hskip |-> 0, vskip |-> vk, hsize |-> -1, vsize |-> vs] : vk \in VK, vs \in RV}
+                          \cup {[hskip |-> hk, vskip |-> vk, hsize |-> hs, vsize |-> vs] :
+                                  hk \in {-hg, hg, u}, vk \in {-vg, vg, 1}, hs \in {-1, hg}, vs \in {-1, vg}}),
+      pokes |-> IF lvl = "tiny" THEN {<<0, 0>>, <<hg, vg>>} ELSE {<<0, 0>>, <<hg, vg>>, <<-hg, -vg>>, <<u, 1>>, <<Wm, 0>>},
+      bpokes |-> IF lvl = "tiny" THEN {0, 1} ELSE {0, 1, b.planes[1].mps},
       kinds |-> kinds, fills |-> fills]
 
 Mk(b, hp, ha, vp, va, al, ao, bm, req) ==
@@ -74,13 +121,11 @@ Mk(b, hp, ha, vp, va, al, ao, bm, req) ==
    aoff |-> IF al = 0 THEN 0 ELSE ao, basemod |-> IF al = 0 THEN 0 ELSE bm, req |-> req] @@ b
 
 GeoKinds == {"alloc", "resize", "map"}
-AllKinds == {"alloc", "dup", "free", "resize", "map", "fill", "check"}
+CowKinds == {"alloc", "dup", "free", "resize", "map", "fill", "poke", "check", "view", "bread", "bpoke"}
 
-PicSet(bases, margins, aligns, AW, AH) ==
-  { Mk(b, m[1], m[2], m[3], m[4], a[1], a[2], a[3], PicReq(b, AW, AH, GeoKinds, 0, FALSE)) :
+PicSet(bases, margins, aligns, AW, AH, lvl) ==
+  { Mk(b, m[1], m[2], m[3], m[4], a[1], a[2], a[3], PicReq(b, AW, AH, GeoKinds, 0, lvl)) :
       b \in bases, m \in margins, a \in aligns }
-SndSet(bases, aligns, AN) ==
-  { Mk(b, 0, 0, 0, 0, a[1], 0, a[3], SndReq(AN, GeoKinds, 0, FALSE)) : b \in bases, a \in aligns }
 
 M3 == {0, 1, 2}
 AllMargins == {<<a, b, c, d>> : a \in M3, b \in M3, c \in M3, d \in M3}
@@ -90,36 +135,43 @@ FewAligns == {<<0, 0, 0>>, <<16, 1, 0>>}
 AllAligns == {<<0, 0, 0>>, <<16, 0, 0>>, <<16, 1, 8>>, <<4, 0, 1>>}
 
 (* ---- geometry sets selected by the cfg files ---- *)
-\* quick: every base geometry, a few margin / alignment combinations
-GS_quick_a == PicSet({B_420p8, B_yuyv}, FewMargins, FewAligns, {1, 2}, {1, 2})
-GS_quick_b == PicSet({B_422p10, B_rgb24, B_444p8}, {<<1, 2, 1, 2>>, <<2, 0, 0, 1>>}, FewAligns, {1, 2}, {1, 2})
-              \cup PicSet({B_v210, B_nv12}, {<<1, 2, 1, 2>>}, {<<16, 1, 0>>}, {1, 2}, {1, 2})
-GS_quick_s == SndSet({B_s16x2, B_f32x1, B_u8x3}, AllAligns, {1, 2, 3, 4})
-\* thorough: all margins in {0,1,2}^4, all alignments, widths up to 4 granules (8 macropixels for 4:2:x)
-GS_full_420  == PicSet({B_420p8}, AllMargins, AllAligns, {1, 2, 4}, {1, 2})
-GS_full_422  == PicSet({B_422p10}, AllMargins, AllAligns, {1, 2, 4}, {1, 2})
-GS_full_444  == PicSet({B_444p8}, AllMargins, FewAligns, {1, 2, 4}, {1, 2, 4})
-GS_full_nv12 == PicSet({B_nv12, B_yuva420}, AllMargins, FewAligns, {1, 2}, {1, 2})
-GS_full_yuyv == PicSet({B_yuyv}, AllMargins, AllAligns, {1, 2, 4}, {1, 2, 4})
-GS_full_v210 == PicSet({B_v210}, AllMargins, FewAligns, {1, 2}, {1, 2, 4})
-GS_full_rgb  == PicSet({B_rgb24}, AllMargins, AllAligns, {1, 2, 4}, {1, 2, 4})
-GS_full_s    == SndSet({B_s16x2, B_f32x1, B_u8x3}, AllAligns, 1..6)
+\* quick, wide: EVERY geometry class of the header (+ v210, 4:1:1, 4:1:0), one
+\* margin / alignment setting, every allocation, one resize, a cross-section of windows
+GS_wide(z) == PicSet(AllBases, {<<1, 2, 1, 2>>}, {<<16, 1, 0>>}, {2}, {2}, "mid")
+\* quick, deep: representative classes, a few margin / alignment settings, every window
+GS_deep_a(z) == PicSet({ByName("yuv420p")}, {<<1, 2, 1, 2>>}, {<<16, 1, 0>>}, {2}, {2}, "full")
+GS_deep_b(z) == PicSet({ByName("yuyv422")}, {<<1, 2, 1, 2>>, <<2, 1, 2, 0>>}, {<<16, 1, 0>>}, {1, 2}, {1, 2}, "full")
+             \cup PicSet({ByName("rgb24")}, {<<2, 0, 0, 1>>}, {<<4, 0, 1>>}, {1, 2}, {1, 2}, "full")
+\* thorough: all margins in {0,1,2}^4 for six representative classes, a few margins for the
+\* other classes; every class x all alignments; one allocation, one resize, cross-section of windows
+GS_full_margins(bases) == PicSet(bases, AllMargins, {<<16, 1, 0>>}, {2}, {2}, "mid")
+GS_full_m1(z) == GS_full_margins({ByName("yuv420p"), ByName("yuv422p10le")})
+GS_full_m2(z) == GS_full_margins({ByName("nv12"), ByName("yuyv422")})
+GS_full_m3(z) == GS_full_margins({B_v210})
+Rep6 == {ByName("yuv420p"), ByName("yuv422p10le"), ByName("nv12"), ByName("yuyv422"), B_v210}
+GS_full_m4(z) == PicSet(AllBases \ Rep6, FewMargins, {<<16, 1, 0>>}, {2}, {2}, "mid")
+GS_full_al(z) == PicSet(AllBases, {<<1, 2, 1, 2>>}, AllAligns, {2}, {2}, "mid")
+\* thorough, deep: every window, chains of 3 resizes
+GS_full_420(z) == PicSet({ByName("yuv420p")}, {<<1, 2, 1, 2>>, <<2, 1, 2, 0>>}, FewAligns, {2}, {2}, "full")
+GS_full_422(z) == PicSet({ByName("yuv422p10le"), ByName("nv12")}, {<<1, 2, 1, 2>>}, FewAligns, {2}, {2}, "full")
+GS_full_pk(z) == PicSet({ByName("yuyv422"), B_v210, ByName("rgb24")}, {<<1, 2, 1, 2>>}, FewAligns, {2}, {2}, "full")
 
 \* negative configurations (deliberately broken variants must be rejected)
-GS_neg == PicSet({B_420p8}, {<<1, 2, 1, 2>>}, {<<16, 1, 0>>}, {1, 2}, {1, 2})
+GS_neg(z) == PicSet({ByName("yuv420p")}, {<<1, 2, 1, 2>>}, {<<16, 1, 0>>}, {1, 2}, {1, 2}, "full")
 
-\* content / copy-on-write: two handles, dup / fill / check / free, tiny requests
-CowPic(b, m, a) == Mk(b, m[1], m[2], m[3], m[4], a[1], a[2], a[3], PicReq(b, {2}, {2}, AllKinds, 2, TRUE))
-GS_cow_quick == {CowPic(B_420p8, <<2, 2, 1, 1>>, <<16, 0, 0>>), CowPic(B_yuyv, <<1, 1, 1, 0>>, <<0, 0, 0>>)}
-                \cup {Mk(B_s16x2, 0, 0, 0, 0, 16, 0, 0, SndReq({3}, AllKinds, 2, TRUE))}
-GS_cow_full == {CowPic(b, m, <<16, 1, 0>>) : b \in {B_420p8, B_422p10, B_yuyv, B_rgb24, B_nv12}, m \in {<<2, 2, 1, 1>>, <<1, 0, 2, 2>>}}
-               \cup {Mk(b, 0, 0, 0, 0, 16, 0, 0, SndReq({3}, AllKinds, 2, TRUE)) : b \in {B_s16x2, B_f32x1}}
+\* content / copy-on-write: two or three handles, tiny requests
+CowPic(b, m, a) == Mk(b, m[1], m[2], m[3], m[4], a[1], a[2], a[3], PicReq(b, {2}, {2}, CowKinds, 2, "tiny"))
+GS_cow_quick(z) == {CowPic(ByName("yuv420p"), <<2, 2, 1, 1>>, <<16, 0, 0>>), CowPic(ByName("yuyv422"), <<1, 1, 1, 0>>, <<0, 0, 0>>)}
+GS_cow_q(z) == {CowPic(ByName("yuv420p"), <<2, 2, 1, 1>>, <<16, 0, 0>>)}
+GS_cow_full(z) == {CowPic(ByName(n), m, <<16, 1, 0>>) : n \in {"yuv420p", "yuv422p10le", "yuyv422", "rgb24", "nv12"},
+                                                     m \in {<<2, 2, 1, 1>>, <<1, 0, 2, 2>>}}
 
 \* behaviour generator (simulation): every kind of operation, moderate request sets
-DrvPic(b, m, a) == Mk(b, m[1], m[2], m[3], m[4], a[1], a[2], a[3], PicReq(b, {1, 2, 4}, {1, 2, 3}, AllKinds, 3, FALSE))
-GS_drv == {DrvPic(b, m, a) : b \in {B_420p8, B_422p10, B_444p8, B_nv12, B_yuyv, B_v210, B_rgb24, B_yuva420},
+DrvPic(b, m, a) == Mk(b, m[1], m[2], m[3], m[4], a[1], a[2], a[3], PicReq(b, {1, 2, 4}, {1, 2, 3}, CowKinds, 4, "mid"))
+GS_drv(z) == {DrvPic(b, m, a) : b \in AllBases,
                              m \in {<<0, 0, 0, 0>>, <<1, 2, 1, 2>>, <<2, 1, 2, 0>>, <<2, 2, 2, 2>>, <<0, 2, 1, 0>>},
                              a \in AllAligns}
-          \cup {Mk(b, 0, 0, 0, 0, a[1], 0, a[3], SndReq(1..6, AllKinds, 3, FALSE)) :
-                  b \in {B_s16x2, B_f32x1, B_u8x3}, a \in AllAligns}
+\* tag -> geometry set (an operator with an argument: TLC evaluates only the set a cfg selects)
+PicGeoSet(t) == CASE t = "wide" -> GS_wide(0) [] t = "deep_a" -> GS_deep_a(0) [] t = "deep_b" -> GS_deep_b(0) [] t = "full_m1" -> GS_full_m1(0) [] t = "full_m2" -> GS_full_m2(0) [] t = "full_m3" -> GS_full_m3(0) [] t = "full_m4" -> GS_full_m4(0) [] t = "full_al" -> GS_full_al(0) [] t = "neg" -> GS_neg(0) [] t = "cow_quick" -> GS_cow_quick(0) [] t = "cow_full" -> GS_cow_full(0) [] t = "cow_q" -> GS_cow_q(0) [] t = "drv" -> GS_drv(0)
+                  [] t = "full_420" -> GS_full_420(0) [] t = "full_422" -> GS_full_422(0) [] t = "full_pk" -> GS_full_pk(0)
 =============================================================================
